@@ -371,6 +371,10 @@ func runC17(c *mon.Ctx) {
 				ops = append(ops, HOp{Kind: "pcr", PID: esPIDPool[0]}, HOp{Kind: "tables"})
 			}
 		}
+		if i%16 == 3 {
+			ops = wrapPMTScenario(r)
+			c.Count("histories_with_a_pmt_of_65536_bytes")
+		}
 		hr := runHistory(ops, period)
 		ems, _ := tablesOracle(c, "C17", "random", i, hr, true)
 		c.Count("random_histories")
